@@ -25,7 +25,7 @@ CONFIGS = {
                "--features", "pest_meta/grammar-extras,pest_vm/grammar-extras,pest_generator/grammar-extras,"
                              "pest_derive/grammar-extras"],
     "nomemchr": ["-p", "pest", "--no-default-features"],
-    "pestall": ["-p", "pest", "--features", "pretty-print,const_prec_climber"],
+    "pestall": ["-p", "pest", "--features", "pretty-print,const_prec_climber,miette-error"],
 }
 
 
